@@ -65,7 +65,7 @@ fn refine(args: &[String]) {
         let mut g = G::new(seed.wrapping_mul(1_000_003).wrapping_add(h));
         let cfg = gen_cfg(&mut g);
         let id = VId { a: 9, g: 1 + g.below(2) as u16, k: g.below(4) as u8, pad: if g.chance(80) { 0 } else { 2 } };
-        let mut inst = Inst::new(id, &cfg, g.next(), g.below(4) as u8, g.below(256) as u8);
+        let mut inst = Inst::new(id, &cfg, g.next(), g.below(6) as u8, g.below(256) as u8);
         let mut pending: Vec<(u128, MTimer)> = vec![];
         let mut now: u128 = 0;
         let (pk, plen) = pick_prelude(&mut g);
